@@ -32,8 +32,7 @@ def main():
     if not props:
         props = meta.get('checks') or [meta.get('property')] if meta.get('property') else []
     tmp = tempfile.mkdtemp(prefix='seedchk_')
-    ev_backup = os.path.join(tmp, 'evidence_backup')
-    shutil.copytree(os.path.join(HERE, 'evidence'), ev_backup)      # checks rewrite evidence/: restore afterwards
+    ev_dir = os.path.join(tmp, 'evidence')      # evidence of runs on the changed tree goes to the scratch directory
     try:
         clean = os.path.join(tmp, 'clean'); mut = os.path.join(tmp, 'mut')
         for d in (clean, mut):
@@ -56,7 +55,7 @@ def main():
         print('CONFIRMED' if confirmed else 'NOT CONFIRMED')
         caught = []
         for p in props:
-            env = dict(os.environ, FXPV_REPO=mut)
+            env = dict(os.environ, FXPV_REPO=mut, FXPV_EVIDENCE_DIR=ev_dir)
             c = subprocess.run([os.path.join(HERE, 'check'), p], capture_output=True, text=True, env=env, cwd=HERE)
             lines = [l for l in c.stdout.splitlines() if l.startswith(('VIOLATION', 'CHECKER-ERROR'))]
             summary = [l for l in c.stdout.splitlines() if l.startswith(p + ' tier=')]
@@ -75,8 +74,6 @@ def main():
         print('caught by: %s' % (caught or 'NONE'))
         return 0 if (confirmed and caught) else 1
     finally:
-        shutil.rmtree(os.path.join(HERE, 'evidence'), ignore_errors=True)
-        shutil.copytree(ev_backup, os.path.join(HERE, 'evidence'))
         shutil.rmtree(tmp, ignore_errors=True)
 
 
